@@ -5,7 +5,8 @@
    coalescing), 942989e (span count overflow), 532034f (aligned request overflow), 9ef0717 (heap
    deallocall clears the used marks), d9328b9 (heap get_ptr_node refuses the end node), 23ac203 (heap
    region geometry: room for two nodes, aligned end node): every statement is the full-strength one,
-   over ALL histories with sizes anywhere in 0 .. 2^64-1; no [_refuted]/[_partial] pair is left.  The
+   over ALL histories with sizes anywhere in 0 .. 2^64-1; one [_refuted] is left (AlignedAllocator
+   alloc(0) returns a pointer, open finding).  The
    only hypotheses are the [*cfg_ok] facts about the buffer (a real object that does not wrap the
    address space); for the heap, hcfg_ok's size clause is exactly the check of add_memory_region. *)
 From Coq Require Import ZArith List Bool Permutation.
@@ -161,6 +162,17 @@ Print Assumptions C11_heap_mem_invalid_free_reported.
 Theorem C11_heap_mem_invalid_free_reported_full : heap_mem_invalid_free_reported_full.
 Proof. exact heap_mem_invalid_free_reported_full_proof. Qed.
 Print Assumptions C11_heap_mem_invalid_free_reported_full.
+
+(* the mark invariant depends on what HeapAllocatorT:deallocall does, and the dependency is on the
+   SCRAPED source (Gen.DEALLOCALL_CLEARS_MARKS, fact deallocall_policy used by the refinement proof):
+   for either policy, "the state deallocall leaves behind carries no used mark" holds exactly when
+   deallocall clears the marks - with the walk of 9ef0717 removed the proofs above do not compile *)
+Theorem C11_heap_deallocall_clears_iff_policy : forall pol : bool,
+  (forall c ops s live s', hcfg_ok c -> Forall hop_usize ops ->
+     crun c (heap_init_state, []) ops = Some (s, live) ->
+     hp_deallocall_p pol c s = HOk s' -> no_marks (h_mem s')) <-> pol = true.
+Proof. exact deallocall_clears_iff_policy_proof. Qed.
+Print Assumptions C11_heap_deallocall_clears_iff_policy.
 
 (* realloc runs the same pointer test *)
 Theorem C11_heap_mem_invalid_realloc_reported : forall c ops s live p n old,
@@ -346,3 +358,9 @@ Print Assumptions C11_aligned_fits.
 Theorem C11_aligned_fits_init : aligned_fits_full.
 Proof. exact aligned_fits_full_proof. Qed.
 Print Assumptions C11_aligned_fits_init.
+
+(* "If size is zero ... returns nilptr" is false of AlignedAllocator:alloc (open finding): alloc(0)
+   takes #pointer + ALIGN - 1 bytes from the wrapped allocator and returns a pointer *)
+Theorem C11_aligned_alloc_zero_refuted : ~ aligned_alloc_zero_nil_full.
+Proof. exact aligned_alloc_zero_refuted_proof. Qed.
+Print Assumptions C11_aligned_alloc_zero_refuted.
